@@ -201,6 +201,8 @@ def build(interp_globals):
 
     @model
     def m_PyCallable_Check(o):
+        if o is NULL:
+            return 0          # CPython: "if (x == NULL) return 0;"
         if is_proxy(o):
             return 0
         return 1 if callable(topy(o)) else 0
@@ -372,6 +374,9 @@ def build(interp_globals):
 
     @model
     def m_PyLong_AsLong(o):
+        if o is NULL:
+            st.set_err(SystemError, SystemError("bad argument to internal function"))     # CPython: PyErr_BadInternalCall()
+            return -1
         o = topy(o)
         if isinstance(o, (SymInt, SymBool)):
             e = symx._z(o)
@@ -668,7 +673,7 @@ def build(interp_globals):
             args = args[0]
             spec = spec[1:-1]
         optional = False
-        items = list(args)
+        nitems = len(args)          # items are looked at one by one below (lazily chosen argument tuples stay lazy)
         idx = 0
         r = 0
         codes = []
@@ -684,10 +689,11 @@ def build(interp_globals):
                 codes.append((c, optional))
             i += 1
         required = sum(1 for c, o in codes if not o)
-        if not (required <= len(items) <= len(codes)):
-            st.set_err(TypeError, TypeError("function takes %d arguments (%d given)" % (len(codes), len(items))))
+        if not (required <= nitems <= len(codes)):
+            st.set_err(TypeError, TypeError("function takes %d arguments (%d given)" % (len(codes), nitems)))
             return 0
-        for (c, o), item in zip(codes, items):
+        for j_, (c, o) in enumerate(codes[:nitems]):
+            item = args[j_]
             if c == "O":
                 refs[r].set(item)
                 r += 1
@@ -755,10 +761,13 @@ def build(interp_globals):
         f = fmt.strip("()")
         for c in f:
             v = a.pop(0)
+            # references owned by a container the C code builds are not part of the caller's balance (the same convention as
+            # PyTuple_SET_ITEM, which takes over the reference the code acquired): "O" adds one that the tuple owns (net 0),
+            # "N" hands the caller's reference to the tuple (-1)
             if c == "O":
-                st.incref(v, 1)
                 vals.append(v)
             elif c == "N":
+                st.incref(v, -1)
                 vals.append(v)
             elif c in "ilnIk":
                 vals.append(SymInt(v.e) if isinstance(v, SymInt) else (SymInt(z3.BV2Int(v, c in "il")) if z3.is_expr(v) else int(v)))
